@@ -9,7 +9,7 @@ open GIVerif.Py
 
 structure WfLayout (L : Layout) : Prop where
   startIndent : ∀ x ∈ L.startIndent, isSpace x = true ∧ x ≠ '\r' ∧ x ≠ '\n'
-  indent : ∀ x ∈ L.indent, isSpace x = true ∧ x ≠ '\r' ∧ x ≠ '\n'
+  indent : ∀ k, ∀ x ∈ L.indentAt k, isSpace x = true ∧ x ≠ '\r' ∧ x ≠ '\n'
   endIndent : ∀ x ∈ L.endIndent, isSpace x = true ∧ x ≠ '\r' ∧ x ≠ '\n'
   sp : isSpace L.sp = true ∧ L.sp ≠ '\r' ∧ L.sp ≠ '\n'
   eol : IsEol L.eol
@@ -21,37 +21,46 @@ theorem wsString_spec {s : Str} (h : wsString s = true) : ∀ x ∈ s, isSpace x
 
 theorem wfLayout_spec {L : Layout} (h : wfLayout L = true) : WfLayout L := by
   simp only [wfLayout, Bool.and_eq_true, Bool.or_eq_true, beq_iff_eq, noBreakChar, bne_iff_ne, ne_eq] at h
-  obtain ⟨⟨⟨⟨⟨h1, h2⟩, h3⟩, h4⟩, h5, h6⟩, h7⟩ := h
-  exact ⟨wsString_spec h1, wsString_spec h2, wsString_spec h3, ⟨h4, h6, h5⟩, by
+  obtain ⟨⟨⟨⟨⟨⟨h1, h2l⟩, h2⟩, h3⟩, h4⟩, h5, h6⟩, h7⟩ := h
+  have hat : ∀ k, ∀ x ∈ L.indentAt k, isSpace x = true ∧ x ≠ '\r' ∧ x ≠ '\n' := by
+    intro k
+    unfold Layout.indentAt
+    cases hk : L.indents[k]? with
+    | none => simp only [List.getD_eq_getElem?_getD, hk, Option.getD_none]; exact wsString_spec h2
+    | some v =>
+      simp only [List.getD_eq_getElem?_getD, hk, Option.getD_some]
+      exact wsString_spec (List.all_eq_true.mp h2l v (List.mem_of_getElem? hk))
+  exact ⟨wsString_spec h1, hat, wsString_spec h3, ⟨h4, h6, h5⟩, by
     rcases h7 with (h | h) | h
     · exact Or.inl h
     · exact Or.inr (Or.inl h)
     · exact Or.inr (Or.inr h)⟩
 
 /-- the column at which the text of a laid-out line starts -/
-def colOf (L : Layout) (l : Str) : Nat := L.indent.length + (if l.isEmpty then 1 else 2)
+def colOf (L : Layout) (k : Nat) (l : Str) : Nat := (L.indentAt k).length + (if l.isEmpty then 1 else 2)
 
-theorem lineStep_lay (h : Hdr) (st : BSt) (ln : Nat) (L : Layout) (hL : WfLayout L) (l : Str) :
-    lineStep h st ln (layLine L l) =
-      lineBody h { st with blockIndent := st.blockIndent ++ [L.indent] } ln (colOf L l) (layLine L l) l := by
-  have hind : ∀ x ∈ L.indent, isSpace x = true := fun x hx => (hL.indent x hx).1
+theorem lineStep_lay (h : Hdr) (st : BSt) (ln : Nat) (L : Layout) (hL : WfLayout L) (k : Nat) (l : Str) :
+    lineStep h st ln (layLine L k l) =
+      lineBody h { st with blockIndent := st.blockIndent ++ [L.indentAt k] } ln (colOf L k l) (layLine L k l) l := by
+  have hind : ∀ x ∈ L.indentAt k, isSpace x = true := fun x hx => (hL.indent k x hx).1
   unfold lineStep stripAsterisk layLine colOf
+  generalize L.indentAt k = ind at hind ⊢
   cases hl : l.isEmpty with
   | true =>
     have : l = [] := List.isEmpty_iff.mp hl
     subst this
     simp only [if_true]
-    rw [matchAsterisk_bare L.indent hind]
-    have hws : countWs (L.indent ++ ['*']) = L.indent.length :=
-      countWhile_append_stop isSpace L.indent '*' [] hind star_not_space
-    have hd : (L.indent ++ ['*']).drop (L.indent.length + 1) = [] := List.drop_eq_nil_of_le (by simp)
+    rw [matchAsterisk_bare ind hind]
+    have hws : countWs (ind ++ ['*']) = ind.length :=
+      countWhile_append_stop isSpace ind '*' [] hind star_not_space
+    have hd : (ind ++ ['*']).drop (ind.length + 1) = [] := List.drop_eq_nil_of_le (by simp)
     simp [hws, take_len_append, groupText, hd]
   | false =>
     simp only [Bool.false_eq_true, if_false]
-    rw [matchAsterisk_indent L.indent L.sp l hind hL.sp.1]
-    have hws : countWs (L.indent ++ '*' :: L.sp :: l) = L.indent.length :=
-      countWhile_append_stop isSpace L.indent '*' _ hind star_not_space
-    have hd : (L.indent ++ '*' :: L.sp :: l).drop (L.indent.length + 2) = l := by
+    rw [matchAsterisk_indent ind L.sp l hind hL.sp.1]
+    have hws : countWs (ind ++ '*' :: L.sp :: l) = ind.length :=
+      countWhile_append_stop isSpace ind '*' _ hind star_not_space
+    have hd : (ind ++ '*' :: L.sp :: l).drop (ind.length + 2) = l := by
       rw [drop_len_add]; rfl
     simp [hws, take_len_append, groupText, hd]
 
@@ -70,6 +79,25 @@ theorem lineLoop_append (h : Hdr) : ∀ (xs ys : List Str) (ln : Nat) (st : BSt)
       rw [lineLoop_append h xs ys (ln + 1) st']
       simp only [List.length_cons]
       rw [show ln + 1 + xs.length = ln + (xs.length + 1) by omega]
+
+theorem layLines_append (L : Layout) : ∀ (xs ys : List Str) (k : Nat),
+    layLines L k (xs ++ ys) = layLines L k xs ++ layLines L (k + xs.length) ys
+  | [], ys, k => by simp [layLines]
+  | x :: xs, ys, k => by
+    simp only [List.cons_append, layLines, layLines_append L xs ys (k + 1), List.length_cons]
+    rw [show k + 1 + xs.length = k + (xs.length + 1) by omega]
+
+theorem layLines_length (L : Layout) : ∀ (xs : List Str) (k : Nat), (layLines L k xs).length = xs.length
+  | [], _ => rfl
+  | x :: xs, k => by simp [layLines, layLines_length L xs (k + 1)]
+
+theorem indentsFrom_add (L : Layout) : ∀ (a b k : Nat),
+    indentsFrom L k (a + b) = indentsFrom L k a ++ indentsFrom L (k + a) b
+  | 0, b, k => by simp [indentsFrom]
+  | a + 1, b, k => by
+    rw [show a + 1 + b = (a + b) + 1 by omega]
+    simp only [indentsFrom, indentsFrom_add L a b (k + 1), List.cons_append]
+    rw [show k + 1 + a = k + (a + 1) by omega]
 
 /-! ### the phases of a block -/
 
@@ -90,23 +118,23 @@ theorem assocHas_map_name (ps : List SPart) (k : Str) :
   simp [assocHas, List.any_map, Function.comp_def]
 
 /-- the parameter lines -/
-theorem phase_params (h : Hdr) (L : Layout) (hL : WfLayout L) : ∀ (ps : List SPart) (ln : Nat) (st : BSt) (blk : BlockM)
+theorem phase_params (h : Hdr) (L : Layout) (hL : WfLayout L) : ∀ (ps : List SPart) (k ln : Nat) (st : BSt) (blk : BlockM)
     (inds : List Str), Clean st blk inds → (st.inPart = some .ident ∨ st.inPart = some .params) →
     (∀ p ∈ ps, wfParam p = true) → nodupKeys (ps.map (fun p => (p.name, ()))) = true →
     (∀ p ∈ ps, assocHas blk.params p.name = false) →
-    ∃ st', lineLoop h (ps.map (fun p => layLine L (paramLine p))) ln st = .ok st' ∧
-      Clean st' { blk with params := blk.params ++ paramRaws ps (ln + 1) } (inds ++ List.replicate ps.length L.indent) ∧
+    ∃ st', lineLoop h (layLines L k (ps.map paramLine)) ln st = .ok st' ∧
+      Clean st' { blk with params := blk.params ++ paramRaws ps (ln + 1) } (inds ++ indentsFrom L k ps.length) ∧
       (st'.inPart = some .ident ∨ st'.inPart = some .params)
-  | [], ln, st, blk, inds, hc, hin, _, _, _ => by
+  | [], k, ln, st, blk, inds, hc, hin, _, _, _ => by
     refine ⟨st, rfl, ?_, hin⟩
-    simpa [paramRaws] using hc
-  | p :: ps, ln, st, blk, inds, hc, hin, hw, hn, hnew => by
+    simpa [paramRaws, indentsFrom] using hc
+  | p :: ps, k, ln, st, blk, inds, hc, hin, hw, hn, hnew => by
     have hp := hw p (by simp)
     obtain ⟨_, _, _, hbody⟩ := wfParam_spec hp
-    simp only [List.map_cons, lineLoop]
-    rw [lineStep_lay h st (ln + 1) L hL (paramLine p)]
-    have hstep := lineBody_param h { st with blockIndent := st.blockIndent ++ [L.indent] } blk (ln + 1)
-      (colOf L (paramLine p)) (layLine L (paramLine p)) (partTail p) p hp (partFields_spec p hbody).2 hc.block hin
+    simp only [List.map_cons, layLines, lineLoop]
+    rw [lineStep_lay h st (ln + 1) L hL k (paramLine p)]
+    have hstep := lineBody_param h { st with blockIndent := st.blockIndent ++ [L.indentAt k] } blk (ln + 1)
+      (colOf L k (paramLine p)) (layLine L k (paramLine p)) (partTail p) p hp (partFields_spec p hbody).2 hc.block hin
       (hnew p (by simp))
     unfold paramLine at hstep ⊢
     rw [hstep]
@@ -127,16 +155,15 @@ theorem phase_params (h : Hdr) (L : Layout) (hL : WfLayout L) : ∀ (ps : List S
       rw [assocHas_map_name] at h1
       have : (ps.any fun r => r.name == p.name) = true := List.any_eq_true.mpr ⟨q, hq, by simp [he]⟩
       rw [this] at h1; cases h1
-    obtain ⟨st', hl, hc', hin'⟩ := phase_params h L hL ps (ln + 1)
-      { st with blockIndent := st.blockIndent ++ [L.indent], partIndent := some 0, inPart := some .params,
+    obtain ⟨st', hl, hc', hin'⟩ := phase_params h L hL ps (k + 1) (ln + 1)
+      { st with blockIndent := st.blockIndent ++ [L.indentAt k], partIndent := some 0, inPart := some .params,
                 block := some (setParam blk (partRaw p.name p (ln + 1))), cur := some (false, partRaw p.name p (ln + 1)) }
-      (setParam blk (partRaw p.name p (ln + 1))) (inds ++ [L.indent])
+      (setParam blk (partRaw p.name p (ln + 1))) (inds ++ [L.indentAt k])
       ⟨rfl, rfl, hc.returnsSeen, hc.diags, by simp [hc.blockIndent]⟩ (Or.inr rfl)
       (fun q hq => hw q (by simp [hq])) hn'.2 hnew'
-    unfold paramLine at hl
     refine ⟨st', hl, ?_, hin'⟩
     rw [hset] at hc'
-    simpa [paramRaws, List.replicate_succ, List.append_assoc] using hc'
+    simpa [paramRaws, indentsFrom, List.append_assoc] using hc'
 
 
 /-- description lines appended one by one give the joined text -/
@@ -154,25 +181,25 @@ theorem foldl_appendDesc (x : Str) : ∀ (ls : List Str), ls.foldl appendDesc (s
     cases ls <;> simp [join]
 
 /-- the lines of the block description, read in the description part -/
-theorem phase_desc (h : Hdr) (L : Layout) (hL : WfLayout L) : ∀ (ls : List Str) (ln : Nat) (st : BSt) (blk : BlockM)
+theorem phase_desc (h : Hdr) (L : Layout) (hL : WfLayout L) : ∀ (ls : List Str) (k ln : Nat) (st : BSt) (blk : BlockM)
     (inds : List Str), Clean st blk inds → st.inPart = some .desc → (∀ l ∈ ls, wfDescLine l = true) →
-    ∃ st', lineLoop h (ls.map (layLine L)) ln st = .ok st' ∧
-      Clean st' { blk with description := ls.foldl appendDesc blk.description } (inds ++ List.replicate ls.length L.indent) ∧
+    ∃ st', lineLoop h (layLines L k ls) ln st = .ok st' ∧
+      Clean st' { blk with description := ls.foldl appendDesc blk.description } (inds ++ indentsFrom L k ls.length) ∧
       st'.inPart = some .desc
-  | [], ln, st, blk, inds, hc, hin, _ => ⟨st, rfl, by simpa using hc, hin⟩
-  | l :: ls, ln, st, blk, inds, hc, hin, hw => by
-    simp only [List.map_cons, lineLoop]
-    have hstep := lineBody_desc h { st with blockIndent := st.blockIndent ++ [L.indent] } blk (ln + 1) (colOf L l)
-      (layLine L l) l hc.block hin (hw l (by simp))
-    rw [lineStep_lay h st (ln + 1) L hL l, hstep]
+  | [], k, ln, st, blk, inds, hc, hin, _ => ⟨st, rfl, by simpa [indentsFrom] using hc, hin⟩
+  | l :: ls, k, ln, st, blk, inds, hc, hin, hw => by
+    simp only [layLines, lineLoop]
+    have hstep := lineBody_desc h { st with blockIndent := st.blockIndent ++ [L.indentAt k] } blk (ln + 1) (colOf L k l)
+      (layLine L k l) l hc.block hin (hw l (by simp))
+    rw [lineStep_lay h st (ln + 1) L hL k l, hstep]
     simp only []
-    obtain ⟨st', hl, hc', hin'⟩ := phase_desc h L hL ls (ln + 1)
-      { st with blockIndent := st.blockIndent ++ [L.indent],
+    obtain ⟨st', hl, hc', hin'⟩ := phase_desc h L hL ls (k + 1) (ln + 1)
+      { st with blockIndent := st.blockIndent ++ [L.indentAt k],
                 block := some { blk with description := appendDesc blk.description l } }
-      { blk with description := appendDesc blk.description l } (inds ++ [L.indent])
+      { blk with description := appendDesc blk.description l } (inds ++ [L.indentAt k])
       ⟨rfl, hc.partIndent, hc.returnsSeen, hc.diags, by simp [hc.blockIndent]⟩ hin (fun x hx => hw x (by simp [hx]))
     refine ⟨st', hl, ?_, hin'⟩
-    simpa [List.replicate_succ, List.append_assoc] using hc'
+    simpa [indentsFrom, List.append_assoc] using hc'
 
 /-! ### the clean-up -/
 
@@ -315,74 +342,74 @@ theorem lineBody_ident (h : Hdr) (st : BSt) (ln col : Nat) (orig : Str) (name : 
   rw [identStep_symbol h st ln col orig _ name a hw hs ha, he, lineIndent_nonspace cs hc]
 
 /-- the optional description part: an empty line and the description lines -/
-theorem phase_descPart (h : Hdr) (L : Layout) (hL : WfLayout L) (ds : List Str) (ln : Nat) (st : BSt) (blk : BlockM)
+theorem phase_descPart (h : Hdr) (L : Layout) (hL : WfLayout L) (ds : List Str) (k ln : Nat) (st : BSt) (blk : BlockM)
     (inds : List Str) (hc : Clean st blk inds) (hin : st.inPart = some .ident ∨ st.inPart = some .params)
     (hnone : blk.description = none) (hw : ∀ l ∈ ds, wfDescLine l = true) :
-    ∃ st', lineLoop h ((if ds.isEmpty then [] else [] :: ds).map (layLine L)) ln st = .ok st' ∧
+    ∃ st', lineLoop h (layLines L k (if ds.isEmpty then [] else [] :: ds)) ln st = .ok st' ∧
       Clean st' { blk with description := if ds.isEmpty then none else some (join ['\n'] ds) }
-        (inds ++ List.replicate (if ds.isEmpty then [] else [] :: ds).length L.indent) ∧
+        (inds ++ indentsFrom L k (if ds.isEmpty then [] else [] :: ds).length) ∧
       (if ds.isEmpty then (st'.inPart = some .ident ∨ st'.inPart = some .params) else st'.inPart = some .desc) := by
   cases ds with
   | nil =>
     refine ⟨st, rfl, ?_, by simpa using hin⟩
     have : blk = { blk with description := none } := by rw [← hnone]
-    simp only [List.isEmpty_nil, if_true, List.length_nil, List.replicate_zero, List.append_nil]
+    simp only [List.isEmpty_nil, if_true, List.length_nil, indentsFrom, List.append_nil]
     rw [← this]; exact hc
   | cons d ds =>
-    simp only [List.isEmpty_cons, Bool.false_eq_true, if_false, List.map_cons, lineLoop]
-    have hstep := lineBody_blank_first h { st with blockIndent := st.blockIndent ++ [L.indent] } blk (ln + 1)
-      (colOf L []) (layLine L []) hc.block hin
-    rw [lineStep_lay h st (ln + 1) L hL [], hstep]
+    simp only [List.isEmpty_cons, Bool.false_eq_true, if_false, layLines, lineLoop]
+    have hstep := lineBody_blank_first h { st with blockIndent := st.blockIndent ++ [L.indentAt k] } blk (ln + 1)
+      (colOf L k []) (layLine L k []) hc.block hin
+    rw [lineStep_lay h st (ln + 1) L hL k [], hstep]
     simp only []
-    obtain ⟨st', hl, hc', hin'⟩ := phase_desc h L hL (d :: ds) (ln + 1)
-      { st with blockIndent := st.blockIndent ++ [L.indent], inPart := some .desc, partIndent := some 0 } blk
-      (inds ++ [L.indent]) ⟨hc.block, rfl, hc.returnsSeen, hc.diags, by simp [hc.blockIndent]⟩ rfl hw
-    simp only [List.map_cons] at hl
+    obtain ⟨st', hl, hc', hin'⟩ := phase_desc h L hL (d :: ds) (k + 1) (ln + 1)
+      { st with blockIndent := st.blockIndent ++ [L.indentAt k], inPart := some .desc, partIndent := some 0 } blk
+      (inds ++ [L.indentAt k]) ⟨hc.block, rfl, hc.returnsSeen, hc.diags, by simp [hc.blockIndent]⟩ rfl hw
+    simp only [layLines] at hl
     refine ⟨st', hl, ?_, hin'⟩
     rw [hnone] at hc'
     have hf : (d :: ds).foldl appendDesc none = some (join ['\n'] (d :: ds)) := by
       simp only [List.foldl_cons, appendDesc]; exact foldl_appendDesc d ds
     rw [hf] at hc'
-    simpa [List.replicate_succ, List.append_assoc] using hc'
+    simpa [indentsFrom, List.append_assoc] using hc'
 
 /-- the optional tag part: an empty line and the `Returns:` line -/
-theorem phase_tagPart (h : Hdr) (L : Layout) (hL : WfLayout L) (r : SPart) (hr : wfPartBody r = true) (ln : Nat)
+theorem phase_tagPart (h : Hdr) (L : Layout) (hL : WfLayout L) (r : SPart) (hr : wfPartBody r = true) (k ln : Nat)
     (st : BSt) (blk : BlockM) (inds : List Str) (hc : Clean st blk inds)
     (hin : st.inPart = some .desc ∨ (st.inPart = some .ident ∨ st.inPart = some .params)) :
-    ∃ st', lineLoop h ([[], returnsLine r].map (layLine L)) ln st = .ok st' ∧ st'.diags = [] ∧
-      st'.blockIndent = inds ++ [L.indent, L.indent] ∧
+    ∃ st', lineLoop h (layLines L k [[], returnsLine r]) ln st = .ok st' ∧ st'.diags = [] ∧
+      st'.blockIndent = inds ++ [L.indentAt k, L.indentAt (k + 1)] ∧
       st'.block = some (setTag { blk with description := if st.inPart = some .desc then appendDesc blk.description []
                                                            else blk.description }
                           (partRaw (str Gen.tagReturns) r (ln + 2))) := by
-  simp only [List.map_cons, List.map_nil, lineLoop]
-  rw [lineStep_lay h st (ln + 1) L hL []]
+  simp only [layLines, lineLoop]
+  rw [lineStep_lay h st (ln + 1) L hL k []]
   have hft := (partFields_spec r hr).2
   rcases hin with hd | hip
   · -- the empty line belongs to the description
-    have hstep := lineBody_blank_desc h { st with blockIndent := st.blockIndent ++ [L.indent] } blk (ln + 1)
-      (colOf L []) (layLine L []) hc.block hd
+    have hstep := lineBody_blank_desc h { st with blockIndent := st.blockIndent ++ [L.indentAt k] } blk (ln + 1)
+      (colOf L k []) (layLine L k []) hc.block hd
     rw [hstep]
     simp only []
-    rw [lineStep_lay h _ (ln + 1 + 1) L hL (returnsLine r)]
+    rw [lineStep_lay h _ (ln + 1 + 1) L hL (k + 1) (returnsLine r)]
     have hret := lineBody_returns h
-      { st with blockIndent := st.blockIndent ++ [L.indent] ++ [L.indent],
+      { st with blockIndent := st.blockIndent ++ [L.indentAt k] ++ [L.indentAt (k + 1)],
                 block := some { blk with description := appendDesc blk.description [] } }
-      { blk with description := appendDesc blk.description [] } (ln + 1 + 1) (colOf L (returnsLine r))
-      (layLine L (returnsLine r)) (partTail r) r hr hft rfl hd hc.partIndent hc.returnsSeen
+      { blk with description := appendDesc blk.description [] } (ln + 1 + 1) (colOf L (k + 1) (returnsLine r))
+      (layLine L (k + 1) (returnsLine r)) (partTail r) r hr hft rfl hd hc.partIndent hc.returnsSeen
     unfold returnsLine at hret ⊢
     rw [hret]
     refine ⟨_, rfl, hc.diags, by simp [hc.blockIndent], ?_⟩
     simp [hd]
   · -- the empty line ends the identifier / parameter part
-    have hstep := lineBody_blank_first h { st with blockIndent := st.blockIndent ++ [L.indent] } blk (ln + 1)
-      (colOf L []) (layLine L []) hc.block hip
+    have hstep := lineBody_blank_first h { st with blockIndent := st.blockIndent ++ [L.indentAt k] } blk (ln + 1)
+      (colOf L k []) (layLine L k []) hc.block hip
     rw [hstep]
     simp only []
-    rw [lineStep_lay h _ (ln + 1 + 1) L hL (returnsLine r)]
+    rw [lineStep_lay h _ (ln + 1 + 1) L hL (k + 1) (returnsLine r)]
     have hret := lineBody_returns h
-      { st with blockIndent := st.blockIndent ++ [L.indent] ++ [L.indent], inPart := some .desc, partIndent := some 0 }
-      blk (ln + 1 + 1) (colOf L (returnsLine r))
-      (layLine L (returnsLine r)) (partTail r) r hr hft hc.block rfl rfl hc.returnsSeen
+      { st with blockIndent := st.blockIndent ++ [L.indentAt k] ++ [L.indentAt (k + 1)], inPart := some .desc, partIndent := some 0 }
+      blk (ln + 1 + 1) (colOf L (k + 1) (returnsLine r))
+      (layLine L (k + 1) (returnsLine r)) (partTail r) r hr hft hc.block rfl rfl hc.returnsSeen
     unfold returnsLine at hret ⊢
     rw [hret]
     refine ⟨_, rfl, hc.diags, by simp [hc.blockIndent], ?_⟩
@@ -421,61 +448,64 @@ theorem finish_desc (b : SBlock) (hb : WfSBlock b) (extra : Bool) :
     | true => simp [strip_append_lf htr]
     | false => simp [hne, strip_trimmed htr]
 
-theorem replicate_body (x : Str) (a c k : Nat) :
-    [x] ++ List.replicate a x ++ List.replicate c x ++ List.replicate k x = List.replicate (1 + a + c + k) x := by
-  rw [show [x] = List.replicate 1 x from rfl]
-  simp only [List.replicate_append_replicate]
+theorem indents_body (L : Layout) (P D T : Nat) :
+    [L.indentAt 0] ++ indentsFrom L 1 P ++ indentsFrom L (1 + P) D ++ indentsFrom L (1 + P + D) T =
+      indentsFrom L 0 (1 + P + D + T) := by
+  rw [indentsFrom_add L (1 + P + D) T 0, indentsFrom_add L (1 + P) D 0, indentsFrom_add L 1 P 0]
+  simp only [Nat.zero_add]
+  rfl
 
 /-- the state machine over every laid-out body of a block of the grammar -/
 theorem lineLoop_body (L : Layout) (hL : WfLayout L) (b : SBlock) (hb : WfSBlock b) (n : Nat) (h : Hdr)
     (hh : h = { line := n, codeBefore := [], codeAfter := [] }) :
-    ∃ st, lineLoop h ((bodyOf b).map (layLine L)) n BSt.init = .ok st ∧ st.diags = [] ∧
-      finishBlock st = some (blockImage b n (List.replicate (bodyOf b).length L.indent)) := by
+    ∃ st, lineLoop h (layLines L 0 (bodyOf b)) n BSt.init = .ok st ∧ st.diags = [] ∧
+      finishBlock st = some (blockImage b n (indentsFrom L 0 (bodyOf b).length)) := by
   unfold bodyOf
-  simp only [List.map_cons, List.map_append, List.append_assoc, List.cons_append, List.map_map]
-  rw [lineLoop]
+  simp only [List.append_assoc, List.cons_append]
+  rw [layLines, layLines_append, layLines_append, lineLoop]
+  simp only [List.length_map, Nat.zero_add]
   -- the identifier line
-  have e1 : lineStep h BSt.init (n + 1) (layLine L (identLine b.name b.anns)) =
-      .ok { block := some (blkMid h { b with params := [] } n none []), identWarned := false, blockIndent := [L.indent],
+  have e1 : lineStep h BSt.init (n + 1) (layLine L 0 (identLine b.name b.anns)) =
+      .ok { block := some (blkMid h { b with params := [] } n none []), identWarned := false, blockIndent := [L.indentAt 0],
             partIndent := some 0, inPart := some .ident, cur := none, returnsSeen := false, diags := [] } := by
-    rw [lineStep_lay h BSt.init (n + 1) L hL (identLine b.name b.anns)]
-    exact lineBody_ident h { BSt.init with blockIndent := BSt.init.blockIndent ++ [L.indent] } (n + 1)
-      (colOf L (identLine b.name b.anns)) (layLine L (identLine b.name b.anns)) b.name b.anns hb.name hb.notSA hb.anns rfl
+    rw [lineStep_lay h BSt.init (n + 1) L hL 0 (identLine b.name b.anns)]
+    exact lineBody_ident h { BSt.init with blockIndent := BSt.init.blockIndent ++ [L.indentAt 0] } (n + 1)
+      (colOf L 0 (identLine b.name b.anns)) (layLine L 0 (identLine b.name b.anns)) b.name b.anns hb.name hb.notSA hb.anns rfl
   rw [e1]
   simp only []
   -- the parameters
   rw [lineLoop_append]
-  obtain ⟨st2, hl2, hc2, hin2⟩ := phase_params h L hL b.params (n + 1)
-    { block := some (blkMid h { b with params := [] } n none []), identWarned := false, blockIndent := [L.indent],
+  obtain ⟨st2, hl2, hc2, hin2⟩ := phase_params h L hL b.params 1 (n + 1)
+    { block := some (blkMid h { b with params := [] } n none []), identWarned := false, blockIndent := [L.indentAt 0],
       partIndent := some 0, inPart := some .ident, cur := none, returnsSeen := false, diags := [] }
-    (blkMid h { b with params := [] } n none []) [L.indent] ⟨rfl, rfl, rfl, rfl, rfl⟩ (Or.inl rfl) hb.params hb.nodup
+    (blkMid h { b with params := [] } n none []) [L.indentAt 0] ⟨rfl, rfl, rfl, rfl, rfl⟩ (Or.inl rfl) hb.params hb.nodup
     (fun _ _ => rfl)
-  have hc2' : Clean st2 (blkMid h b n none []) ([L.indent] ++ List.replicate b.params.length L.indent) := hc2
-  have hcomp : (layLine L ∘ paramLine) = (fun p => layLine L (paramLine p)) := rfl
-  rw [hcomp, hl2]
-  simp only [List.length_map]
+  have hc2' : Clean st2 (blkMid h b n none []) ([L.indentAt 0] ++ indentsFrom L 1 b.params.length) := hc2
+  rw [hl2]
+  simp only [layLines_length, List.length_map]
   -- the description
   rw [lineLoop_append]
-  obtain ⟨st3, hl3, hc3, hin3⟩ := phase_descPart h L hL b.desc (n + 1 + b.params.length) st2 _ _ hc2' hin2 rfl hb.desc
+  obtain ⟨st3, hl3, hc3, hin3⟩ := phase_descPart h L hL b.desc (1 + b.params.length) (n + 1 + b.params.length) st2 _ _
+    hc2' hin2 rfl hb.desc
   have hc3' : Clean st3 (blkMid h b n (if b.desc.isEmpty then none else some (join ['\n'] b.desc)) [])
-      ([L.indent] ++ List.replicate b.params.length L.indent ++
-        List.replicate (if b.desc.isEmpty = true then [] else [] :: b.desc).length L.indent) := hc3
+      ([L.indentAt 0] ++ indentsFrom L 1 b.params.length ++
+        indentsFrom L (1 + b.params.length) (if b.desc.isEmpty = true then [] else [] :: b.desc).length) := hc3
   rw [hl3]
-  simp only [List.length_map]
-  have harith : ∀ a c k : Nat, 1 + a + c + k = a + (c + k) + 1 := by intros; omega
+  simp only [layLines_length]
   cases hr : b.returns with
   | none =>
-    simp only [List.map_nil, lineLoop]
+    simp only [layLines, lineLoop]
     refine ⟨st3, rfl, hc3'.diags, ?_⟩
     unfold finishBlock
     rw [hc3'.block]
-    have h0 := replicate_body L.indent b.params.length (if b.desc.isEmpty = true then [] else [] :: b.desc).length 0
-    simp only [List.replicate_zero, List.append_nil] at h0
+    have h0 := indents_body L b.params.length (if b.desc.isEmpty = true then [] else [] :: b.desc).length 0
+    simp only [indentsFrom, List.append_nil] at h0
     have hd0 := finish_desc b hb false
     simp only [Bool.false_eq_true, if_false] at hd0
     simp only [blkMid, hc3'.blockIndent, h0, blockImage, hr, hh, List.map_nil,
       paramRaws_clean b.params (n + 2) hb.params, List.length_cons, List.length_append, List.length_map, List.length_nil]
-    rw [hd0, harith]
+    rw [hd0, show b.params.length + ((if b.desc.isEmpty = true then [] else [] :: b.desc).length + 0) + 1 =
+      1 + b.params.length + (if b.desc.isEmpty = true then [] else [] :: b.desc).length + 0 by omega]
   | some r =>
     have hrb := hb.returns r hr
     have hnm : (partRaw (str Gen.tagReturns) r (n + linesBeforeTags b + 2)).name = str Gen.tagReturns := rfl
@@ -483,35 +513,39 @@ theorem lineLoop_body (L : Layout) (hL : WfLayout L) (b : SBlock) (hb : WfSBlock
     | true =>
       simp only [hde, if_true, List.length_nil, Nat.add_zero, List.nil_append] at hin3 hc3' ⊢
       have hnd : st3.inPart ≠ some .desc := by rcases hin3 with h | h <;> rw [h] <;> simp
-      obtain ⟨st4, hl4, hd4, hi4, hb4⟩ := phase_tagPart h L hL r hrb (n + 1 + b.params.length) st3 _ _ hc3' (Or.inr hin3)
+      obtain ⟨st4, hl4, hd4, hi4, hb4⟩ := phase_tagPart h L hL r hrb (1 + b.params.length) (n + 1 + b.params.length) st3 _ _
+        hc3' (Or.inr hin3)
       refine ⟨st4, hl4, hd4, ?_⟩
       unfold finishBlock
       rw [hb4, hi4]
       have hln : n + 1 + b.params.length + 2 = n + linesBeforeTags b + 2 := by simp [linesBeforeTags, hde]; omega
-      have h2 := replicate_body L.indent b.params.length 0 2
-      rw [show [L.indent, L.indent] = List.replicate 2 L.indent from rfl, h2, hln]
+      have h2 := indents_body L b.params.length 0 2
+      simp only [Nat.add_zero] at h2
+      rw [show [L.indentAt (1 + b.params.length), L.indentAt (1 + b.params.length + 1)] =
+        indentsFrom L (1 + b.params.length) 2 from rfl, h2, hln]
       simp only [hnd, if_false, setTag, hnm, blkMid, assocSet, List.map_cons, List.map_nil, blockImage, hr, hh, hde,
         if_true, paramRaws_clean b.params (n + 2) hb.params, cleanDescription_raw _ r _ hrb, List.length_cons,
         List.length_append, List.length_map, List.length_nil]
-      rw [harith]
+      rw [show b.params.length + (0 + 1 + 1) + 1 = 1 + b.params.length + 2 by omega]
       rfl
     | false =>
       simp only [hde, Bool.false_eq_true, if_false, List.length_cons] at hin3 hc3' ⊢
-      obtain ⟨st4, hl4, hd4, hi4, hb4⟩ := phase_tagPart h L hL r hrb (n + 1 + b.params.length + (b.desc.length + 1)) st3 _ _
-        hc3' (Or.inl hin3)
+      obtain ⟨st4, hl4, hd4, hi4, hb4⟩ := phase_tagPart h L hL r hrb (1 + b.params.length + (b.desc.length + 1))
+        (n + 1 + b.params.length + (b.desc.length + 1)) st3 _ _ hc3' (Or.inl hin3)
       refine ⟨st4, hl4, hd4, ?_⟩
       unfold finishBlock
       rw [hb4, hi4]
       have hln : n + 1 + b.params.length + (b.desc.length + 1) + 2 = n + linesBeforeTags b + 2 := by
         simp [linesBeforeTags, hde]; omega
-      have h2 := replicate_body L.indent b.params.length (b.desc.length + 1) 2
+      have h2 := indents_body L b.params.length (b.desc.length + 1) 2
       have hd1 := finish_desc b hb true
       simp only [hde, Bool.false_eq_true, if_false, if_true] at hd1
-      rw [show [L.indent, L.indent] = List.replicate 2 L.indent from rfl, h2, hln]
+      rw [show [L.indentAt (1 + b.params.length + (b.desc.length + 1)), L.indentAt (1 + b.params.length + (b.desc.length + 1) + 1)] =
+        indentsFrom L (1 + b.params.length + (b.desc.length + 1)) 2 from rfl, h2, hln]
       simp only [hin3, if_true, appendDesc, setTag, hnm, blkMid, assocSet, List.map_cons, List.map_nil, blockImage, hr, hh,
         hde, Bool.false_eq_true, if_false, paramRaws_clean b.params (n + 2) hb.params, cleanDescription_raw _ r _ hrb,
         List.length_cons, List.length_append, List.length_map, List.length_nil]
-      rw [hd1, harith]
+      rw [hd1, show b.params.length + (b.desc.length + 1 + (0 + 1 + 1)) + 1 = 1 + b.params.length + (b.desc.length + 1) + 2 by omega]
 
 
 /-! ### the whole comment -/
@@ -550,25 +584,36 @@ theorem bodyOf_noBreak (b : SBlock) (hb : WfSBlock b) : ∀ l ∈ bodyOf b, NoBr
 theorem ws_noBreak {s : Str} (h : ∀ x ∈ s, isSpace x = true ∧ x ≠ '\r' ∧ x ≠ '\n') : NoBreak s :=
   fun x hx => (h x hx).2
 
-theorem layLine_noBreak (L : Layout) (hL : WfLayout L) {l : Str} (h : NoBreak l) : NoBreak (layLine L l) := by
+theorem layLine_noBreak (L : Layout) (hL : WfLayout L) (k : Nat) {l : Str} (h : NoBreak l) : NoBreak (layLine L k l) := by
   unfold layLine
   split
-  · exact noBreak_append (ws_noBreak hL.indent) (noBreak_cons (by decide) noBreak_nil)
-  · exact noBreak_append (ws_noBreak hL.indent) (noBreak_cons (by decide) (noBreak_cons hL.sp.2 h))
+  · exact noBreak_append (ws_noBreak (hL.indent k)) (noBreak_cons (by decide) noBreak_nil)
+  · exact noBreak_append (ws_noBreak (hL.indent k)) (noBreak_cons (by decide) (noBreak_cons hL.sp.2 h))
 
-/-- **parse ∘ render**: every layout of the writer's lines for a block of the grammar parses, without any
-    diagnostic, to exactly the block's image (with the layout's indentation recorded for every body line) -/
+theorem layLines_noBreak (L : Layout) (hL : WfLayout L) : ∀ (ls : List Str) (k : Nat), (∀ l ∈ ls, NoBreak l) →
+    ∀ x ∈ layLines L k ls, NoBreak x
+  | [], _, _ => fun _ hx => by cases hx
+  | l :: ls, k, h => by
+    intro x hx
+    simp only [layLines, List.mem_cons] at hx
+    rcases hx with rfl | hx
+    · exact layLine_noBreak L hL k (h l (by simp))
+    · exact layLines_noBreak L hL ls (k + 1) (fun y hy => h y (by simp [hy])) x hx
+
+/-- **parse ∘ render**: every layout — the indentation in front of the asterisk chosen line by line — of the
+    writer's lines for a block of the grammar parses, without any diagnostic, to exactly the block's image
+    (with each line's own indentation recorded) -/
 theorem parseBlock_render (L : Layout) (hL : WfLayout L) (b : SBlock) (hb : WfSBlock b) (n : Nat) (inds0 : List Str) :
     parseBlock (render L (blockImage b n inds0)) n =
-      .ok (some (blockImage b n (List.replicate (bodyOf b).length L.indent)), []) := by
+      .ok (some (blockImage b n (indentsFrom L 0 (bodyOf b).length)), []) := by
   unfold parseBlock render renderLines
-  rw [bodyLines_image b n inds0 hb, List.cons_append]
-  have hnb : ∀ l ∈ (L.startIndent ++ str "/**") :: ((bodyOf b).map (layLine L) ++ [L.endIndent ++ str "*/"]), NoBreak l := by
+  rw [bodyLines_image b n inds0 hb]
+  have hnb : ∀ l ∈ (L.startIndent ++ str "/**") :: (layLines L 0 (bodyOf b) ++ [L.endIndent ++ str "*/"]), NoBreak l := by
     intro l hl
-    simp only [List.mem_cons, List.mem_append, List.mem_map, List.mem_nil_iff, or_false] at hl
-    rcases hl with rfl | ⟨x, hx, rfl⟩ | rfl
+    simp only [List.mem_cons, List.mem_append, List.mem_nil_iff, or_false] at hl
+    rcases hl with rfl | hx | rfl
     · exact noBreak_append (ws_noBreak hL.startIndent) (by intro c hc; revert c; decide)
-    · exact layLine_noBreak L hL (bodyOf_noBreak b hb x hx)
+    · exact layLines_noBreak L hL (bodyOf b) 0 (bodyOf_noBreak b hb) l hx
     · exact noBreak_append (ws_noBreak hL.endIndent) (by intro c hc; revert c; decide)
   rw [commentLines_join L.eol hL.eol _ (by simp) hnb]
   unfold parseBlockLines
@@ -582,18 +627,36 @@ theorem parseBlock_render (L : Layout) (hL : WfLayout L) (b : SBlock) (hb : WfSB
 
 /-! ### the writer -/
 
-theorem mostCommon_fold_same (whole : List Str) (x : Str) : ∀ (m : Nat),
-    (List.replicate m x).foldl (fun best k => match best with
+/-- `most_common(1)` of a non-empty list is one of its elements -/
+theorem mostCommon_fold (whole : List Str) : ∀ (xs : List Str) (acc : Option Str),
+    (∀ a, acc = some a → a ∈ whole) → (∀ x ∈ xs, x ∈ whole) → (acc ≠ none ∨ xs ≠ []) →
+    ∃ m, xs.foldl (fun best k => match best with
       | none => some k
-      | some b => if whole.count k > whole.count b then some k else some b) (some x) = some x
-  | 0 => rfl
-  | m + 1 => by simp [List.replicate_succ, mostCommon_fold_same whole x m]
+      | some b => if whole.count k > whole.count b then some k else some b) acc = some m ∧ m ∈ whole
+  | [], acc, ha, _, hne => by
+    cases acc with
+    | none => rcases hne with h | h <;> exact absurd rfl h
+    | some a => exact ⟨a, rfl, ha a rfl⟩
+  | x :: xs, acc, ha, hx, _ => by
+    rw [List.foldl_cons]
+    apply mostCommon_fold whole xs
+    · intro a hacc
+      cases acc with
+      | none => simp only [Option.some.injEq] at hacc; rw [← hacc]; exact hx x (by simp)
+      | some b0 =>
+        simp only [] at hacc
+        split at hacc
+        · simp only [Option.some.injEq] at hacc; rw [← hacc]; exact hx x (by simp)
+        · simp only [Option.some.injEq] at hacc; rw [← hacc]; exact ha b0 rfl
+    · exact fun y hy => hx y (by simp [hy])
+    · left
+      cases acc with
+      | none => simp
+      | some b0 => simp only []; split <;> simp
 
-theorem mostCommon_replicate (k : Nat) (x : Str) : mostCommon (List.replicate (k + 1) x) = some x := by
+theorem mostCommon_mem (l : List Str) (hne : l ≠ []) : ∃ m, mostCommon l = some m ∧ m ∈ l := by
   unfold mostCommon
-  conv => lhs; arg 3; rw [List.replicate_succ]
-  rw [List.foldl_cons]
-  exact mostCommon_fold_same _ x k
+  exact mostCommon_fold l l none (fun _ h => by cases h) (fun _ h => h) (Or.inr hne)
 
 theorem flatten_lines : ∀ (ls : List Str), ls ≠ [] → (ls.map (fun l => l ++ ['\n'])).flatten = join ['\n'] ls ++ ['\n']
   | [], h => absurd rfl h
@@ -602,13 +665,22 @@ theorem flatten_lines : ∀ (ls : List Str), ls ≠ [] → (ls.map (fun l => l +
     rw [List.map_cons, List.flatten_cons, flatten_lines (m :: ms) (by simp), join_cons_cons]
     simp
 
+/-- in a layout with the same indentation on every line the body lines are laid out one like the other -/
+theorem layLines_uniform (L : Layout) (hu : L.indents = []) : ∀ (ls : List Str) (k : Nat),
+    layLines L k ls = ls.map (fun l => if l.isEmpty then L.indent ++ ['*'] else L.indent ++ '*' :: L.sp :: l)
+  | [], _ => rfl
+  | l :: ls, k => by
+    simp only [layLines, List.map_cons, layLines_uniform L hu ls (k + 1), layLine, Layout.indentAt, hu]
+    simp
+
 theorem write_lines (si li : Str) (body : List Str) :
     ((si ++ str "/**\n") :: body.map (fun l => if l.isEmpty then li ++ ['*', '\n'] else li ++ '*' :: ' ' :: l ++ ['\n'])
         ++ [li ++ str "*/\n"]).flatten =
       join ['\n'] ((si ++ str "/**") ::
-        body.map (layLine { startIndent := si, indent := li, endIndent := li, sp := ' ', eol := ['\n'] }) ++ [li ++ str "*/"])
+        (layLines { startIndent := si, indents := [], indent := li, endIndent := li, sp := ' ', eol := ['\n'] } 0 body
+          ++ [li ++ str "*/"]))
         ++ ['\n'] := by
-  rw [← flatten_lines _ (by simp)]
+  rw [← flatten_lines _ (by simp), layLines_uniform _ rfl]
   congr 1
   simp only [List.cons_append, List.map_cons, List.map_append, List.map_map, List.map_nil]
   congr 1
@@ -616,28 +688,27 @@ theorem write_lines (si li : Str) (body : List Str) :
   · congr 1
     · apply List.map_congr_left
       intro l _
-      simp only [Function.comp, layLine]
+      simp only [Function.comp]
       split <;> simp
     · simp [str]
 
-/-- the writer's own text for the image of a block model is that block's rendering in the writer's layout,
-    followed by the final line break -/
-theorem writeBlock_image (b : SBlock) (n : Nat) (k : Nat) (ind : Str) :
-    writeBlock (blockImage b n (List.replicate (k + 1) ind)) =
-      .ok (render (writerLayout ind) (blockImage b n (List.replicate (k + 1) ind)) ++ ['\n']) := by
+/-- the writer's own text for the image of a block model is that block's rendering in the writer's layout
+    (the most common recorded indentation `m` on every line), followed by the final line break -/
+theorem writeBlock_image (b : SBlock) (n : Nat) (inds : List Str) (m : Str) (hm : mostCommon inds = some m) :
+    writeBlock (blockImage b n inds) = .ok (render (writerLayout m) (blockImage b n inds) ++ ['\n']) := by
   unfold writeBlock writeIndents
-  have hind : (blockImage b n (List.replicate (k + 1) ind)).indentation = List.replicate (k + 1) ind := rfl
-  have hcb : (blockImage b n (List.replicate (k + 1) ind)).codeBefore = [] := rfl
-  have hca : (blockImage b n (List.replicate (k + 1) ind)).codeAfter = [] := rfl
-  rw [hind, mostCommon_replicate, hcb, hca]
+  have hind : (blockImage b n inds).indentation = inds := rfl
+  have hcb : (blockImage b n inds).codeBefore = [] := rfl
+  have hca : (blockImage b n inds).codeAfter = [] := rfl
+  rw [hind, hm, hcb, hca]
   unfold render renderLines writerLayout
-  cases he : endsWith (if ind.isEmpty then [' '] else ind) ['\t'] with
+  cases he : endsWith (if m.isEmpty then [' '] else m) ['\t'] with
   | true => simp only [he, if_true, List.isEmpty_nil]; rw [write_lines]
   | false => simp only [he, Bool.false_eq_true, if_false, List.isEmpty_nil, if_true]; rw [write_lines]
 
 
-theorem writerLayout_wf (ind : Str) (h : wsString ind = true) : WfLayout (writerLayout ind) := by
-  have hi := wsString_spec h
+theorem writerLayout_wf (ind : Str) (h : ∀ x ∈ ind, isSpace x = true ∧ x ≠ '\r' ∧ x ≠ '\n') : WfLayout (writerLayout ind) := by
+  have hi := h
   have hsp : isSpace ' ' = true ∧ ' ' ≠ '\r' ∧ ' ' ≠ '\n' := by decide
   have hindent : ∀ x ∈ (if ind.isEmpty then [' '] else ind), isSpace x = true ∧ x ≠ '\r' ∧ x ≠ '\n' := by
     intro x hx
@@ -651,13 +722,32 @@ theorem writerLayout_wf (ind : Str) (h : wsString ind = true) : WfLayout (writer
   cases he : endsWith indent ['\t'] with
   | true =>
     simp only [if_true]
-    refine ⟨hindent, ?_, ?_, hsp, Or.inl rfl⟩ <;>
+    refine ⟨hindent, ?_, ?_, hsp, Or.inl rfl⟩
+    · intro k x hx
+      simp only [Layout.indentAt, List.getD_eq_getElem?_getD, List.getElem?_nil, Option.getD_none] at hx
+      rcases List.mem_append.mp hx with h1 | h1
+      · exact hindent x h1
+      · rw [List.mem_singleton.mp h1]; exact hsp
     · intro x hx
       rcases List.mem_append.mp hx with h1 | h1
       · exact hindent x h1
       · rw [List.mem_singleton.mp h1]; exact hsp
   | false =>
     simp only [Bool.false_eq_true, if_false]
-    exact ⟨fun x hx => hindent x (hdl x hx), hindent, hindent, hsp, Or.inl rfl⟩
+    refine ⟨fun x hx => hindent x (hdl x hx), ?_, hindent, hsp, Or.inl rfl⟩
+    intro k x hx
+    simp only [Layout.indentAt, List.getD_eq_getElem?_getD, List.getElem?_nil, Option.getD_none] at hx
+    exact hindent x hx
+
+/-- every recorded indentation of a well-formed layout is white space without line breaks -/
+theorem indentsFrom_ws (L : Layout) (hL : WfLayout L) : ∀ (n k : Nat), ∀ s ∈ indentsFrom L k n,
+    ∀ x ∈ s, isSpace x = true ∧ x ≠ '\r' ∧ x ≠ '\n'
+  | 0, _ => fun _ hs => by cases hs
+  | n + 1, k => by
+    intro s hs
+    simp only [indentsFrom, List.mem_cons] at hs
+    rcases hs with rfl | hs
+    · exact hL.indent k
+    · exact indentsFrom_ws L hL n (k + 1) s hs
 
 end GIVerif.AnnParse
